@@ -29,6 +29,7 @@ type EntrySpec struct {
 	Cfg       Config
 	Tier      string
 	Solo      bool
+	NoRedirect []string
 }
 
 type ViolOut struct {
@@ -338,6 +339,9 @@ func findEntries(l *loaded, re string, tier string) ([]*EntrySpec, error) {
 						tgt = pkgPath + "." + tgt
 					}
 					e.Redirects[fields[0]] = tgt
+				case "noredirect":
+					delete(e.Redirects, fields[0])
+					e.NoRedirect = append(e.NoRedirect, fields[0])
 				case "constoverride":
 					a, _ := strconv.ParseInt(fields[1], 10, 64)
 					b, _ := strconv.ParseInt(fields[2], 10, 64)
@@ -432,6 +436,9 @@ func runEntry(l *loaded, e *EntrySpec, pl *pool, maxPaths, nsamples int, outDir 
 	}
 	for k, v := range e.Redirects {
 		P.redirects[k] = v
+	}
+	for _, k := range e.NoRedirect {
+		delete(P.redirects, k)
 	}
 	res := &EntryResult{Name: e.Name, Inconcl: map[string]int{}, Funcs: map[string]int{}, Bounds: map[string]int{
 		"max_bytes": e.Cfg.MaxBytes, "unwind": e.Cfg.MaxVisits, "max_steps": e.Cfg.MaxSteps, "opaque_string_max": e.Cfg.OpaqueMax, "max_sched_ops": e.Cfg.MaxSchedOps, "max_preemptions": e.Cfg.Preempt}}
